@@ -61,7 +61,7 @@ class WriteSame16(SCSICommand):
             raise SCSICommand.MissingBlocksizeException
 
         SCSICommand.__init__(self, opcode, 0 if ndob else blocksize, 0)
-        self.dataout = None if ndob else data
+        self.dataout = bytearray(0) if ndob else data
         self.cdb = self.build_cdb(
             opcode=self.opcode.value,
             lba=lba,
